@@ -85,6 +85,7 @@ def main():
         parts = {
             "trace": seg("trace"),
             "deliveries": seg("dlv"),
+            "simulator_listener_deliveries": seg("slv"),
             "notifications": [n for n in seg("ntfs") if n[0] in ("startrepl", "warmup", "endrepl")],
             "observations": seg("obs"),
             "draws": seg("draws"),
